@@ -358,6 +358,27 @@ func trimOWSRight(b []byte) []byte {
 	return b
 }
 
+// spacesForTabs returns b with every HTAB outside of quoted strings replaced by a space (on a copy, if there is one):
+// optional whitespace around ';' is *( SP / HTAB ), fasthttp.VisitHeaderParams skips spaces only
+func spacesForTabs(b []byte) []byte {
+	if bytes.IndexByte(b, '\t') == -1 {
+		return b
+	}
+	out := append([]byte(nil), b...)
+	quoted := false
+	for i := 0; i < len(out); i++ {
+		switch {
+		case quoted && out[i] == '\\':
+			i++
+		case out[i] == '"':
+			quoted = !quoted
+		case out[i] == '\t' && !quoted:
+			out[i] = ' '
+		}
+	}
+	return out
+}
+
 // forEachMediaRange parses an Accept or Content-Type header, calling functor
 // on each media range.
 // See: https://www.rfc-editor.org/rfc/rfc9110#name-content-negotiation-fields
@@ -452,7 +473,7 @@ func getOffer(header []byte, isAccepted func(spec, offer string, specParams head
 				for k := range params {
 					delete(params, k)
 				}
-				fasthttp.VisitHeaderParams(accept[i:], func(key, value []byte) bool {
+				fasthttp.VisitHeaderParams(spacesForTabs(accept[i:]), func(key, value []byte) bool {
 					if len(key) == 1 && key[0] == 'q' {
 						if q, err := fasthttp.ParseUfloat(value); err == nil {
 							quality = q
